@@ -7,6 +7,28 @@ SPEC = {
     'id': 'C06',
     'lean_modules': ['AITB.Props.C06'],
     'theorems': [
+        'AITB.Guard.eval_rep',
+        'AITB.Guard.discountOK_sound',
+        'AITB.Guard.discountOKfinite_sound',
+        'AITB.Guard.discountComplete_sound',
+        'AITB.MS.discount_guard_table_ok',
+        'AITB.MS.discount_guards_partial',
+        'AITB.MS.discount_guards_complete',
+        'AITB.MS.discount_guards_sound',
+        'AITB.MS.discount_guards_nan_counterexample',
+        'AITB.MS.sumX_eq_fin',
+        'AITB.MS.isProbLoop_iff',
+        'AITB.MS.isProbDense_eq_loop',
+        'AITB.MS.isProbSparse_sound',
+        'AITB.MS.sparsified_row',
+        'AITB.MS.step_rejected_unchanged',
+        'AITB.MS.commit_before_validate_is_observable',
+        'AITB.MS.run_rejected_noop',
+        'AITB.MS.step_valid',
+        'AITB.MS.step_valid_partial',
+        'AITB.MS.setDiscount_nan_counterexample',
+        'AITB.MS.run_valid',
+        'AITB.MS.run_valid_partial',
     ],
     'harness': 'harness/c06.cpp',
     'level': 'proof',
